@@ -531,6 +531,7 @@ Definition parse_arpa_text (st : structure) (file : list N) : res model :=
   do (counts, r0) <- read_arpa_counts file;
   if Nat.ltb KENLM_MAX_ORDER (length counts) then Err Format
   else if Nat.ltb (length counts) 2 then Err Format
+  else if hd 0 counts =? 0 then Err Format           (* CheckCounts since eada1ab: there is always <unk> *)
   else
     do r1 <- read_ngram_header 1 r0;
     do (words, saw_unk, unigrams, r2) <- read_1grams (S (length r1)) (hd 0 counts) r1 [] false [];
@@ -566,6 +567,8 @@ Definition parse_arpa (st : structure) (file : list N) : res model :=
 (* ---- binary header checks (lm/binary_format.cc ReadHeader, MatchCheck; lm/model.cc CheckCounts) ---------------------------- *)
 (* what the header decides before any size is computed; Undecided = the outcome depends on the layout sizes (C04's subject) *)
 Inductive bin_verdict := BinReject (e : err) | BinUndecided.
+Definition le64 (b : list N) : N :=
+  nth 0 b 0 + 256 * (nth 1 b 0 + 256 * (nth 2 b 0 + 256 * (nth 3 b 0 + 256 * (nth 4 b 0 + 256 * (nth 5 b 0 + 256 * (nth 6 b 0 + 256 * nth 7 b 0)))))).
 Definition le32 (b : list N) : N := nth 0 b 0 + 256 * nth 1 b 0 + 65536 * nth 2 b 0 + 16777216 * nth 3 b 0.
 (* ReadHeader: !(probing_multiplier >= 1.0) on the float32 bit pattern; a NaN is rejected too *)
 Definition multiplier_rejected (bits : N) : bool :=
@@ -596,6 +599,7 @@ Definition check_binary_header (file : list N) (requested : option N) (want_voca
       else if negb (sversion =? search_version mtype) then BinReject Format
       else if 6 <? order then BinReject Format
       else if order <? 2 then BinReject Format
+      else if le64 (skipn 108 file) =? 0 then BinReject Format       (* CheckCounts: a header that claims zero unigrams *)
       else if want_vocab && (has_vocab =? 0) then BinUndecided       (* rejected, but only after UpdateConfigFromBinary read the layout *)
       else BinUndecided.
 
